@@ -139,11 +139,58 @@ def run_tool(tool, args, workdir, release=True):
     lockf = open(os.path.join(TARGET, "tools.lock"), "w")
     fcntl.flock(lockf, fcntl.LOCK_EX)
     try:
+        ensure_fresh(os.path.join(TARGET, "tools"))
         cmd = ["cargo", "run", "--target-dir", os.path.join(TARGET, "tools")] + (["--release"] if release else []) + ["--"] + args
         return _run(cmd, cwd=tdir, env=env, timeout=1800, logf=os.path.join(workdir, "tools.log"))
     finally:
         fcntl.flock(lockf, fcntl.LOCK_UN)
         lockf.close()
+
+
+def repo_content_hash():
+    """Hash of everything the repository crates are built from (sources, manifests, build script inputs)."""
+    h = hashlib.sha256()
+    for top in ("weechess-core", "weechess-engine", "book"):
+        base = os.path.join(REPO, top)
+        for root, dirs, files in os.walk(base):
+            dirs[:] = sorted(d for d in dirs if d not in ("target", ".git"))
+            for f in sorted(files):
+                p = os.path.join(root, f)
+                h.update(os.path.relpath(p, REPO).encode())
+                try:
+                    h.update(open(p, "rb").read())
+                except OSError:
+                    h.update(b"<unreadable>")
+    return h.hexdigest()
+
+
+def ensure_fresh(target_dir):
+    """Cargo decides freshness of path dependencies by mtime. A tree restored with old mtimes (or the
+    .repo link pointed at another tree) would silently reuse the previous build of the repository crates.
+    Compare a content hash instead and drop the cached builds of weechess_* when it changed."""
+    os.makedirs(target_dir, exist_ok=True)
+    stamp = os.path.join(target_dir, ".repo_content_hash")
+    now = repo_content_hash() + "|" + os.path.realpath(REPO)
+    try:
+        old = open(stamp).read()
+    except OSError:
+        old = None
+    if old == now:
+        return
+    if old is not None:
+        for root, dirs, files in os.walk(target_dir):
+            for d in list(dirs):
+                if d.startswith("weechess_") or d.startswith("weechess-") or d.startswith("vh_") or d.startswith("tabledump"):
+                    shutil.rmtree(os.path.join(root, d), ignore_errors=True)
+                    dirs.remove(d)
+            for f in files:
+                if "weechess_" in f or "vh_" in f or f.startswith("tabledump") or f.startswith("libtabledump"):
+                    try:
+                        os.remove(os.path.join(root, f))
+                    except OSError:
+                        pass
+    with open(stamp, "w") as f:
+        f.write(now)
 
 
 def repo_lock():
@@ -165,6 +212,7 @@ def build_crate(crate, feature, workdir):
     fcntl.flock(lockf, fcntl.LOCK_EX)
     try:
         shutil.copyfile(repo_lock(), os.path.join(cdir, "Cargo.lock"))
+        ensure_fresh(tdir)
         outroot = os.path.join(tdir, "kani", TRIPLE, "debug", "build", "vh_" + crate)
         shutil.rmtree(outroot, ignore_errors=True)
         cmd = ["cargo", "kani", "--only-codegen", "--no-assertion-reach-checks", "--features", feature, "-Z", "stubbing", "--target-dir", tdir]
@@ -515,6 +563,7 @@ def replay_native(inst, values, workdir, profiles=("dev", "release"), feature=No
         lockf = open(os.path.join(TARGET, "replay-%s.lock" % inst.crate), "w")
         fcntl.flock(lockf, fcntl.LOCK_EX)
         try:
+            ensure_fresh(tdir)
             rc, o = _run(cmd, cwd=cdir, env=env, timeout=1800,
                          logf=os.path.join(workdir, "replay.log"))
         except subprocess.TimeoutExpired:
